@@ -228,4 +228,63 @@ theorem next_refs_resolve {p : Package} {l : Loop} (hl : l ∈ p.loops)
       · exact .inl (ids_flatten_sub_unrolled p l _ h0)
       · exact .inr h0
 
+/-! ### the importing (`$import`) entries are no components of the loaded document -/
+
+theorem afterHash_iterName0 (n : S) : afterHash (iterName 0 n) = some n := by
+  rfl
+
+/-- a component of the loaded document is a component of the main document or iteration 0 of a looped component -/
+theorem mem_ids_flatten {p : Package} {i : Id} (h : i ∈ ids (flatten p)) :
+    i ∈ ids p.main ∨ ∃ l ∈ p.loops, ∃ j ∈ tmplIds l, i = (j.1, iterName 0 j.2) := by
+  unfold ids flatten at h
+  simp only [List.map_append, List.mem_append] at h
+  rcases h with h | h
+  · exact .inl h
+  · right
+    obtain ⟨c, hc, rfl⟩ := List.mem_map.mp h
+    obtain ⟨l, hl, hc⟩ := List.mem_flatMap.mp hc
+    have : c.id ∈ (inst l 0).map Comp.id := List.mem_map_of_mem hc
+    rw [ids_inst] at this
+    obtain ⟨j, hj, hji⟩ := List.mem_map.mp this
+    exact ⟨l, hl, j, hj, hji.symm⟩
+
+/-- a placeholder of the loaded document is a placeholder of the main document or a looped component -/
+theorem mem_placeholders_flatten {p : Package} {i : Id} (h : i ∈ placeholders (flatten p)) :
+    i ∈ placeholders p.main ∨ ∃ l ∈ p.loops, i ∈ tmplIds l := by
+  unfold placeholders flatten at h
+  simp only [List.filterMap_append, List.mem_append] at h
+  rcases h with h | h
+  · exact .inl h
+  · right
+    obtain ⟨c, hc, hci⟩ := List.mem_filterMap.mp h
+    obtain ⟨l, hl, hc⟩ := List.mem_flatMap.mp hc
+    unfold inst at hc
+    obtain ⟨t, ht, rfl⟩ := List.mem_map.mp hc
+    simp only [afterHash_iterName0, Option.map_some] at hci
+    cases hci
+    exact ⟨l, hl, List.mem_map.mpr ⟨t, ht, rfl⟩⟩
+
+/-- **an importing entry resolves to nothing**: an identifier whose name has no `#`, that no component and no
+placeholder of the main document carries and that is no looped component of any document is neither a component
+nor a placeholder of the loaded document. -/
+theorem entry_not_resolved {p : Package} {e : Id} (hname : afterHash e.2 = none) (hmain : e ∉ ids p.main)
+    (hph : e ∉ placeholders p.main) (htmpl : ∀ l ∈ p.loops, e ∉ tmplIds l) :
+    refResolves (flatten p) e = false := by
+  unfold refResolves
+  rw [Bool.or_eq_false_iff]
+  constructor
+  · apply Bool.eq_false_iff.mpr
+    intro h
+    have h' : e ∈ ids (flatten p) := by simpa using h
+    rcases mem_ids_flatten h' with h1 | ⟨l, _, j, _, rfl⟩
+    · exact hmain h1
+    · simp only [afterHash_iterName0] at hname
+      cases hname
+  · apply Bool.eq_false_iff.mpr
+    intro h
+    have h' : e ∈ placeholders (flatten p) := by simpa using h
+    rcases mem_placeholders_flatten h' with h1 | ⟨l, hl, h1⟩
+    · exact hph h1
+    · exact htmpl l hl h1
+
 end St4sd.C11
